@@ -437,15 +437,15 @@ func corrC20Time(r *Run) *c20Time {
 	r.Import("Model.SmppTime")
 	c := &c20Time{r: r, caseLeft: map[string]int{}, advLeft: map[string]int{}}
 	for _, op := range []string{"timeparse", "timefmt", "durparse", "durfmt"} {
-		c.advLeft[op] = r.N(300, 6000)
+		c.advLeft[op] = r.N(200, 6000)
 	}
 	rng := r.Rng
 	// kernel-case budgets (each op line is ALSO a direct test; in the thorough tier every line additionally
 	// goes through the extracted model, the kernel cases being the vm_compute slice all three must agree on)
-	c.caseLeft["timeparse"] = r.N(4200, 40000)
-	c.caseLeft["timefmt"] = r.N(4200, 45000)
-	c.caseLeft["durfmt"] = r.N(1300, 12000)
-	c.caseLeft["durparse"] = r.N(500, 5000)
+	c.caseLeft["timeparse"] = r.N(2600, 40000)
+	c.caseLeft["timefmt"] = r.N(2600, 45000)
+	c.caseLeft["durfmt"] = r.N(1000, 12000)
+	c.caseLeft["durparse"] = r.N(400, 5000)
 
 	// ---- 0. corpus: the repository's own vectors and the known finding first
 	for _, s := range []string{"", "000101000000000+", "111019080000704-", "201020182347832+", "991231235959948+",
